@@ -189,7 +189,7 @@ def run(ctx, build):
             one_case(ctx, R, [(k, v)], 'octet', content, 'value-' + k)
     ctx.sample(dict(options=[['blksize', '65465'], ['Tsize', '0'], ['junk', 'x']], mode='octet'))
     # random mixtures
-    n = 20000 if ctx.thorough else 350
+    n = 60000 if ctx.thorough else 350
     if ctx.widen:
         n *= 2
     for i in range(n):
